@@ -418,8 +418,11 @@ def gen_node(rng, alpha, depth, budget, wide=False, allow_anchor=True):
 
 def gen_regex(rng, wide=False):
     k = rng.random()
-    if k < 0.5:
+    if k < 0.42:
         alpha = [0x61, 0x62, 0x63]
+    elif k < 0.5:
+        # first/last letters of both cases and their ASCII neighbours ('@', '[', '`', '{'): case-range boundaries
+        alpha = rng.sample([0x7a, 0x5a, 0x61, 0x41, 0x79, 0x62], 3) + rng.sample([0x40, 0x5b, 0x60, 0x7b], 1)
     elif k < 0.7:
         alpha = [0x61, 0x62, 0x41, 0x5f, 0x20]
     elif k < 0.85:
